@@ -366,8 +366,16 @@ func ParseSpendPolicy(s string) (SpendPolicy, error) {
 		err = uk.UnmarshalText([]byte(t))
 		return
 	}
+	depth := 0 // nesting is bounded as in the binary decoder
 	var parseSpendPolicy func() SpendPolicy
 	parseSpendPolicy = func() SpendPolicy {
+		if depth++; depth > maxPolicyDepth+1 {
+			if err == nil {
+				err = fmt.Errorf("policy exceeds maximum nesting depth of %d", maxPolicyDepth)
+			}
+			return SpendPolicy{}
+		}
+		defer func() { depth-- }()
 		typ := nextToken()
 		consume('(')
 		defer consume(')')
